@@ -4,6 +4,7 @@
 -/
 import NPModel.Refine.FrameLemmas
 import NPModel.Refine.Samples
+import NPModel.Refine.EvalAssignRows
 namespace NP.C13
 open NP
 
@@ -49,5 +50,24 @@ theorem replaced_column_frame_condition (F : NFrame Cell) (nest : String) (d : C
     (F.setCol nest d).index = F.index ∧ (F.setCol nest d).cols.map (·.1) = F.cols.map (·.1) ∧
     ∀ m, (nest == m) = false → (F.setCol nest d).col? m = F.col? m :=
   ⟨NFrame.setCol_index F nest d, NFrame.setCol_names F nest d h, fun m hm => NFrame.setCol_other F nest m d hm⟩
+
+/-- **`eval("nest.f = expr")` stores positionally, row by row** — through the implementation model
+    (`evalExpr` on the flat view, `__setitem__`'s dispatch, `set_flat_field` / `fill_field_lists`,
+    the chunk loop of `set_list_field`, the validator): on a cleanly stored nest of any chunking a
+    successful assignment replaces only that column; the values computed on the flat view are cut
+    by the rows' record counts and piece `i` becomes field `f` of row `i` (every other field and
+    every missing row untouched, the dtype gets `f : ty`).  When the flat index coincides with the
+    frame's index the "one value per row" branch is taken instead (identical when every row holds
+    one record; finding K5 otherwise). -/
+theorem eval_assign_row_by_row (F F' : NFrame Cell) (nest field : String) (e : Expr) (c : PCol Cell)
+    (hn : F.nestedColumns.contains nest = true) (hc : F.nest? nest = .ok c) (hclean : c.Clean)
+    (idx : List Label) (ty : String) (vals : List Cell) (hev : F.evalExpr e = .ok (idx, ty, vals))
+    (h : F.evalAssign nest field e = .ok F') :
+    ∃ c', F' = F.setCol nest (.nest c') ∧ c'.ty = Spec.tyUpsert c.ty field ty ∧
+      c'.rows = if (idx == F.index) = true
+        then List.zipWith (fun r v => r.map fun t => Spec.Table.upsert t field (List.replicate (Row.len r) v)) c.rows vals
+        else List.zipWith (fun r l => r.map fun t => Spec.Table.upsert t field l) c.rows
+              (Spec.splitBy (c.rows.map Row.len) vals) :=
+  evalAssign_rows F F' nest field e c hn hc hclean idx ty vals hev h
 
 end NP.C13
